@@ -60,7 +60,7 @@ def cases(rng, tier, X):
         out.append(('seq%d' % k, ops))
     # the tick itself: enumeration in Pausing with an incomplete session, Hello deadline and block deadline expired
     # together / separately, the last transmit recent or long ago, every wiring of the port
-    for k in range(60 if tier == 'quick' else 6000):
+    for k in range(150 if tier == 'quick' else 6000):
         ops = ['fsm new 0 map', 'fsm new 1 enum', 'tbl new 0', 'tbl add 0 020000000011 1 1', 'clock %d' % rng.choice([5000, 100000, 2**32 - 400, 2**32 + 5000, 2**40])]
         now = int(ops[-1].split()[1])
         for _ in range(rng.randint(1, 8)):
@@ -81,7 +81,7 @@ def cases(rng, tier, X):
                 ops.append('band heard 1')
         out.append(('tick%d' % k, ops))
     # universal automata schedule (all public calls, missing objects, near-colliding keys, bridged frames, every deadline): this check's predicate on it
-    for k in range(60 if tier == 'quick' else 6000):
+    for k in range(150 if tier == 'quick' else 6000):
         out.append(('au%d' % k, auto.schedule(rng)))
         if k % 3 == 0:
             out.append(('au2_%d' % k, auto.schedule2(rng)))      # two responders in one process, interleaved on the shared clock
